@@ -1,15 +1,21 @@
 #!/usr/bin/env python3
-"""Generates the per-language spec templates under specs/templates/ :
-   <c>_words.inc   opaque word constants w_<name>() + bridging lemmas vx_lit_<name>() ("lit"@ == w_<name>())
-   <c>_words.json  the list of words so defined (plan.known_lits of the extractor)
-   <c>_model.inc   arm-level model of apply: <c>_arm(lemma) -> arm index, <c>_arm_sem(arm, state) -> outcome   (layer L3a)
-   <c>_rows.inc    grammar table rows and the lemmas  model |= row   (layer L3b; the oracle is the grammar, not the code)
-The arm tables are written by hand per language (transliteration of the match, reviewed against the grammar);
-the grammar tables are written independently of the code."""
-import json, os, sys
+"""Generates the per-language spec templates under specs/templates/ from FROZEN tables (never from /repo):
+   specs/tables/<c>_arms.json   arm-level model of the `match` in apply (bootstrapped once by tools/bootstrap_arms.py,
+                                then reviewed/corrected by hand; states the INTENDED table)
+   the grammar rows below        written from each language's grammar, independently of the code (the oracle)
+outputs:
+   <c>_words.inc   module <c>w: closed+opaque word constants, bridging lemmas vx_lit_<w>, fingerprints, pairwise
+                   distinctness, the hand-written string-level functions (<c>_inner.inc) and per-word closed computations
+   <c>_model.inc   <c>_status(lemma, state[, ctx]) : if-chain mirroring the match (layer L3a)
+   <c>_rows.inc    row lemmas: model of each grammar word == what the grammar says (layer L3b)
+   <c>_rows.json   grammar rows with the expected rendering (used by the witness search only)"""
+import json, os, re, sys
 
 VERIF = os.path.dirname(os.path.dirname(os.path.abspath(__file__)))
 T = os.path.join(VERIF, "specs", "templates")
+TB = os.path.join(VERIF, "specs", "tables")
+
+ALPHABET = "abcdefghijklmnopqrstuvwxyz-'àâäçéèêëîïôöùûüáíóúñãõìòßij "
 
 
 def wname(w):
@@ -21,9 +27,6 @@ def wname(w):
 
 def W(w):
     return f"w_{wname(w)}()"
-
-
-ALPHABET = "abcdefghijklmnopqrstuvwxyz-'àâäçéèêëîïôöùûüáíóúñãõìòßij "
 
 
 def cval(ch):
@@ -38,21 +41,6 @@ def wcode(w):
     return h
 
 
-def emit_wcode():
-    o = ["/// integer value of a character (a fixed alphabet; the interpreter cannot cast chars to integers)",
-         "pub open spec fn cval(c: char) -> int {"]
-    for i, ch in enumerate(ALPHABET):
-        lit = "'\\''" if ch == "'" else f"'{ch}'"
-        o.append(f"    {'if' if i == 0 else 'else if'} c == {lit} {{ {i + 1} }}")
-    o.append("    else { 0 }")
-    o.append("}")
-    o.append("/// integer fingerprint of a word (used only to tell string literals apart cheaply: different fingerprints => different words)")
-    o.append("pub open spec fn wcode(s: Seq<char>) -> int decreases s.len() {")
-    o.append("    if s.len() == 0 { 7 } else { wcode(s.drop_last()) * 131 + cval(s.last()) }")
-    o.append("}")
-    open(os.path.join(T, "wcode.inc"), "w", encoding="utf-8").write("\n".join(o) + "\n")
-
-
 def seqlit(w):
     return "seq![" + ", ".join("'%s'" % (c if c != "'" else "\\'") for c in w) + "]" if w else "Seq::<char>::empty()"
 
@@ -65,12 +53,34 @@ def digs(s):
     return {1: "d1", 2: "d2", 3: "d3"}[len(s)] + "(" + ", ".join(f"{ord(c)}u8" for c in s) + ")"
 
 
-def emit_words(c, words, inner_lemmas, arms=None):
-    """module <c>w: closed word constants (atoms for the solver, spelled-out for the interpreter inside the module),
-    bridging lemmas literal == constant, and the closed-computation lemmas that need the spellings"""
+def emit_wcode():
+    o = ["/// integer value of a character (a fixed alphabet; the interpreter cannot cast chars to integers)",
+         "pub open spec fn cval(c: char) -> int {"]
+    for i, ch in enumerate(ALPHABET):
+        lit = "'\\''" if ch == "'" else f"'{ch}'"
+        o.append(f"    {'if' if i == 0 else 'else if'} c == {lit} {{ {i + 1} }}")
+    o.append("    else { 0 }")
+    o.append("}")
+    o.append("/// integer fingerprint of a word (used only to tell words apart cheaply: different fingerprints => different words)")
+    o.append("pub open spec fn wcode(s: Seq<char>) -> int decreases s.len() {")
+    o.append("    if s.len() == 0 { 7 } else { wcode(s.drop_last()) * 131 + cval(s.last()) }")
+    o.append("}")
+    open(os.path.join(T, "wcode.inc"), "w", encoding="utf-8").write("\n".join(o) + "\n")
+
+
+def load_arms(c):
+    return [(a["words"], a["guard"], a["action"]) for a in json.load(open(os.path.join(TB, f"{c}_arms.json"), encoding="utf-8"))]
+
+
+def emit_words(c, words, inner_lemmas, arms):
+    """module <c>w (see file header)"""
     words = sorted(set(words))
-    o = [f"// word constants of the `{c}` model: `closed`, so the solver treats every word as an atom; inside the module the",
-         f"// interpreter can evaluate their spelling (classification lemmas). vx_lit_<w>: code literal == constant.",
+    for w in words:
+        for ch in w:
+            if cval(ch) == 0:
+                raise SystemExit(f"character {ch!r} of word {w!r} is not in ALPHABET")
+    o = [f"// word constants of the `{c}` model: `closed`+opaque, so the solver treats every word as an atom; inside the module the",
+         f"// interpreter can evaluate their spelling (closed computations). vx_lit_<w>: code literal == constant.",
          f"pub mod {c}w {{",
          "    use vstd::prelude::*; use super::*;"]
     for w in words:
@@ -78,22 +88,14 @@ def emit_words(c, words, inner_lemmas, arms=None):
         lit = json.dumps(w, ensure_ascii=False)
         o.append(f"    #[verifier::opaque] pub closed spec fn w_{n}() -> Seq<char> {{ {seqlit(w)} }}")
         o.append(f"    pub proof fn vx_lit_{n}() ensures {lit}@ == w_{n}() {{ reveal(w_{n}); reveal_strlit({lit}); assert({lit}@ =~= {seqlit(w)}); }}")
-    if arms is not None:
-        mw = sorted(set(w for ws, _, _ in arms for w in ws))
-        o.append(f"    /// integer fingerprints of the model's words (computed on their spelling): different fingerprints => different words")
-        o.append(f"    pub proof fn {c}_codes()")
-        o.append("        ensures " + ",\n                ".join(f"wcode({W(w)}) == {wcode(w)}" for w in mw))
-        o.append("    {")
-        for w in mw:
-            o.append(f"        assert(wcode({W(w)}) == {wcode(w)}) by(compute_only);")
-        o.append("    }")
-    if arms is not None:
-        mw = sorted(set(w for ws, _, _ in arms for w in ws))
-        pairs = [(a, b) for i, a in enumerate(mw) for b in mw[i + 1:]]
-        o.append(f"    /// the words of the model are pairwise different (from their fingerprints)")
-        o.append(f"    pub proof fn {c}_distinct()")
-        o.append("        ensures " + ",\n                ".join(f"{W(a)} != {W(b)}" for a, b in pairs))
-        o.append(f"    {{ {c}_codes(); }}")
+    mw = sorted(set(w for ws, _, _ in arms for w in ws))
+    o.append(f"    /// integer fingerprints of the model's words (computed on their spelling)")
+    o.append(f"    pub proof fn {c}_codes()")
+    o.append("        ensures " + ",\n                ".join(f"wcode({W(w)}) == {wcode(w)}" for w in mw))
+    o.append("    {")
+    for w in mw:
+        o.append(f"        assert(wcode({W(w)}) == {wcode(w)}) by(compute_only);")
+    o.append("    }")
     wc = open(os.path.join(T, "wcode.inc"), encoding="utf-8").read().replace("pub open spec fn", "#[verifier::opaque] pub closed spec fn")
     o += ["    " + l for l in wc.split("\n")]
     inner_path = os.path.join(T, f"{c}_inner.inc")
@@ -106,69 +108,95 @@ def emit_words(c, words, inner_lemmas, arms=None):
     json.dump(words, open(os.path.join(T, f"{c}_words.json"), "w", encoding="utf-8"), ensure_ascii=False)
 
 
-def emit_model(c, arms, doc):
-    """<c>_status: direct if-chain mirroring the match of the code (word alternatives, guard, action; a failed guard falls
-    through).  <c>_arm / <c>_arm_sem: the same table split into word classification and state part."""
+def emit_model(c, arms, doc, extra_params=""):
     out = [f"/// {doc}",
-           f"#[verifier::opaque] pub open spec fn {c}_status(l: Seq<char>, o: DsView) -> ApRes {{"]
+           f"#[verifier::opaque] pub open spec fn {c}_status(l: Seq<char>, o: DsView{extra_params}) -> ApRes {{"]
     for k, (ws, g, act) in enumerate(arms):
         cnd = cond(ws) + (f" && ({g})" if g else "")
         out.append(f"    {'if' if k == 0 else 'else if'} {cnd} {{ {act} }}")
     out.append("    else { err_res(o, Error::NaN) }")
     out.append("}")
     open(os.path.join(T, f"{c}_model.inc"), "w", encoding="utf-8").write("\n".join(out) + "\n")
-    arm_of = {}
-    for k, (ws, g, act) in enumerate(arms):
-        for w in ws:
-            arm_of.setdefault(w, k)
-    return arm_of
+
+
+ARMS_CURRENT = []
+
+
+def emit_rows(c, rows, word_facts, row_stmt, nmod=8, props="C01, C04, C08, C16", row_params="o: DsView"):
+    """rows: list of dicts with at least `word`,`desc`; word_facts(row) -> (ensures_text, [compute asserts]); row_stmt(row) -> ensures text"""
+    inner = []
+    mods = [[] for _ in range(nmod)]
+    mw = sorted(set(w for ws, _, _ in ARMS_CURRENT for w in ws))
+    done_ne = set()
+    for k, r in enumerate(rows):
+        ens, asserts, lw = word_facts(r)
+        if lw not in done_ne:
+            done_ne.add(lw)
+            others = [x for x in mw if x != lw]
+            inner.append(f"/// `{lw}` differs from every other word of the model (fingerprints)")
+            inner.append(f"pub proof fn {c}_ne_{wname(lw)}()")
+            inner.append("    ensures " + ",\n            ".join(f"{W(lw)} != {W(x)}" for x in others))
+            inner.append("{")
+            inner.append(f"    {c}_codes(); assert(wcode({W(lw)}) == {wcode(lw)}) by(compute_only);")
+            inner.append("}")
+        inner.append(f"/// string-level facts about `{r['word']}` (closed computation on its spelling)")
+        inner.append(f"pub proof fn lemma_{c}_word_{k}()")
+        inner.append(f"    ensures {ens},")
+        inner.append("{")
+        inner += ["    " + a for a in asserts]
+        inner.append("}")
+        b = mods[k % nmod]
+        b.append(f"    // props: {props}")
+        b.append(f"    /// grammar row `{r['word']}` -> {r['desc']}")
+        b.append(f"    pub proof fn lemma_{c}_row_{k}({row_params})")
+        b.append(f"        ensures {row_stmt(r)}")
+        b.append("    {")
+        b.append(f"        {c}_ne_{wname(lw)}(); lemma_{c}_word_{k}(); reveal({c}_status);")
+        b.append("    }")
+    o = []
+    for i, b in enumerate(mods):
+        o.append(f"pub mod {c}_rows_{i} {{")
+        o.append("    use vstd::prelude::*; use super::*;")
+        o += b
+        o.append("}")
+    open(os.path.join(T, f"{c}_rows.inc"), "w", encoding="utf-8").write("\n".join(o) + "\n")
+    return inner
 
 
 # ------------------------------------------------------------------ English
 def english():
     c = "en"
-    NOT10 = "!(peek2(o) == d2(49u8, 48u8))"
-    arms = [(["zero", "o", "nought"], None, "put_res(o, d1(48u8))")]
-    units = [("one", "first", "oneth"), ("two", "second"), ("three", "third"), ("four", "fourth"), ("five", "fifth"), ("six", "sixth"),
-             ("seven", "seventh"), ("eight", "eighth"), ("nine", "ninth")]
-    for i, ws in enumerate(units):
-        arms.append((list(ws), NOT10, f"put_res(o, d1({49 + i}u8))"))
-    two = [("ten", "tenth", "10"), ("eleven", "eleventh", "11"), ("twelve", "twelfth", "12"), ("thirteen", "thirteenth", "13"),
-           ("fourteen", "fourteenth", "14"), ("fifteen", "fifteenth", "15"), ("sixteen", "sixteenth", "16"), ("seventeen", "seventeenth", "17"),
-           ("eighteen", "eighteenth", "18"), ("nineteen", "nineteenth", "19"), ("twenty", "twentieth", "20"), ("thirty", "thirtieth", "30")]
-    for a, b, v in two:
-        arms.append(([a, b], None, f"put_res(o, {digs(v)})"))
-    arms.append((["fourty", "forty", "fortieth", "fourtieth"], None, f"put_res(o, {digs('40')})"))
-    arms.append((["fifty", "fiftieth"], None, f"put_res(o, {digs('50')})"))
-    arms.append((["sixty", "sixtieth"], None, f"put_res(o, {digs('60')})"))
-    arms.append((["seventy", "seventieth"], None, f"put_res(o, {digs('70')})"))
-    arms.append((["eighty", "eightieth"], None, f"put_res(o, {digs('80')})"))
-    arms.append((["ninety", "ninetieth"], None, f"put_res(o, {digs('90')})"))
-    arms.append((["hundred", "hundredth"], None,
-                 "if peek2(o).len() == 1 || !(peek2(o) == d2(48u8, 48u8)) { shift_res(o, 2) } else { err_res(o, Error::Overlap) }"))
-    arms.append((["thousand", "thousandth"], "range_free_spec(o, 3, 5)", "shift_res(o, 3)"))
-    arms.append((["million", "millionth"], "range_free_spec(o, 6, 8)", "shift_res(o, 6)"))
-    arms.append((["billion", "billionth"], None, "shift_res(o, 9)"))
-    arms.append((["and"], "size_of(o) >= 2", "err_res(o, Error::Incomplete)"))
-    arm_of = emit_model(c, arms, "arm-level model of English::apply for a word without hyphen (layer L3a)")
-    # ---- grammar table (independent of the code): word -> (instr, marker)
+    arms = load_arms(c)
+    emit_model(c, arms, "arm-level model of English::apply for a word without hyphen (layer L3a)")
     u = [("one", "first", "st"), ("two", "second", "nd"), ("three", "third", "rd"), ("four", "fourth", "th"), ("five", "fifth", "th"),
          ("six", "sixth", "th"), ("seven", "seventh", "th"), ("eight", "eighth", "th"), ("nine", "ninth", "th")]
     teens = [("ten", "tenth", 10), ("eleven", "eleventh", 11), ("twelve", "twelfth", 12), ("thirteen", "thirteenth", 13), ("fourteen", "fourteenth", 14),
              ("fifteen", "fifteenth", 15), ("sixteen", "sixteenth", 16), ("seventeen", "seventeenth", 17), ("eighteen", "eighteenth", 18), ("nineteen", "nineteenth", 19)]
     tens = [("twenty", "twentieth", 20), ("thirty", "thirtieth", 30), ("forty", "fortieth", 40), ("fifty", "fiftieth", 50), ("sixty", "sixtieth", 60),
             ("seventy", "seventieth", 70), ("eighty", "eightieth", 80), ("ninety", "ninetieth", 90)]
-    scales = [("hundred", "hundredth", "Hundred"), ("thousand", "thousandth", "Thousand"), ("million", "millionth", "Million"), ("billion", "billionth", "Billion")]
-    rows = [(w, "EnI::Zero", None) for w in ["zero", "o", "nought"]]
+    scales = [("hundred", "hundredth", "Hundred", "100"), ("thousand", "thousandth", "Thousand", "1000"), ("million", "millionth", "Million", "1000000"),
+              ("billion", "billionth", "Billion", "1000000000")]
+    rows = []
+
+    def add(w, ins, m, base):
+        rows.append({"word": w, "instr": ins, "marker": m, "expect": base + (m or ""), "desc": ins + (f", ordinal marker `{m}`" if m else "")})
+    for w in ["zero", "o", "nought"]:
+        add(w, "EnI::Zero", None, "0")
     for i, (cw, ow, m) in enumerate(u):
-        rows += [(cw, f"EnI::Unit({49 + i}u8)", None), (ow, f"EnI::Unit({49 + i}u8)", m)]
+        add(cw, f"EnI::Unit({49 + i}u8)", None, str(i + 1))
+        add(ow, f"EnI::Unit({49 + i}u8)", m, str(i + 1))
         if ow not in ("first", "second"):
-            rows.append((ow + "s", f"EnI::Unit({49 + i}u8)", m + "s"))
+            add(ow + "s", f"EnI::Unit({49 + i}u8)", m + "s", str(i + 1))
     for cw, ow, v in teens + tens:
         ins = f"EnI::Two({48 + v // 10}u8, {48 + v % 10}u8)"
-        rows += [(cw, ins, None), (ow, ins, "th"), (ow + "s", ins, "ths")]
-    for cw, ow, k in scales:
-        rows += [(cw, f"EnI::{k}", None), (cw + "s", f"EnI::{k}", None), (ow, f"EnI::{k}", "th"), (ow + "s", f"EnI::{k}", "ths")]
+        add(cw, ins, None, str(v))
+        add(ow, ins, "th", str(v))
+        add(ow + "s", ins, "ths", str(v))
+    for cw, ow, k, base in scales:
+        add(cw, f"EnI::{k}", None, base)
+        add(cw + "s", f"EnI::{k}", None, base)
+        add(ow, f"EnI::{k}", "th", base)
+        add(ow + "s", f"EnI::{k}", "ths", base)
 
     def lemma_of(w):
         return w.rstrip("s") if (w.endswith("s") and w != "seconds") else w
@@ -179,55 +207,131 @@ def english():
         if w.endswith("ths"):
             return "ths"
         return {"first": "st", "second": "nd", "third": "rd", "thirds": "rds"}.get(w)
-
-    extra = ["seconds", "th", "ths", "first", "second", "third", "thirds", "st", "nd", "rd", "rds", "point", "-", ""]
-    allwords = set(w for ws, _, _ in arms for w in ws) | set(w for w, _, _ in rows) | set(lemma_of(w) for w, _, _ in rows) | set(extra)
-    # (fingerprint lemmas are no longer needed: words are classified by the interpreter)
-    o = ["// English grammar table (written from the grammar, not from the code): word -> place-value instruction, ordinal marker",
-         "pub enum EnI { Zero, Unit(u8), Two(u8, u8), Hundred, Thousand, Million, Billion }"]
     KIND = {None: 0, "th": 1, "ths": 2, "st": 3, "nd": 4, "rd": 5, "rds": 6}
-    inner = []
-    NMOD = 8
-    mods = [[] for _ in range(NMOD)]
-    for k, (w, ins, m) in enumerate(rows):
+
+    def word_facts(r):
+        w = r["word"]
         l = lemma_of(w)
         ordf = l.endswith("th") or w in ("first", "second") or l == "third"
         kind = KIND[marker_of(w)]
-        inner.append(f"/// string-level facts about `{w}` (closed computation on its spelling)")
-        inner.append(f"pub proof fn lemma_en_word_{k}()")
-        inner.append(f"    ensures en_lemma({W(w)}) == {W(l)}, en_ord_form({W(w)}, {W(l)}) == {'true' if ordf else 'false'}, en_marker_kind({W(w)}) == {kind},")
-        inner.append("{")
-        inner.append(f"    assert(en_lemma({W(w)}) =~= {W(l)}) by(compute_only);")
-        inner.append(f"    assert(en_ord_form({W(w)}, {W(l)}) == {'true' if ordf else 'false'}) by(compute_only);")
-        inner.append(f"    assert(en_marker_kind({W(w)}) == {kind}) by(compute_only);")
-        inner.append("}")
-        b = mods[k % NMOD]
-        b.append(f"    // props: C01, C04, C08, C16")
-        b.append(f"    /// grammar row `{w}` -> {ins}" + (f", ordinal marker `{m}`" if m else ""))
-        b.append(f"    pub proof fn lemma_en_row_{k}(o: DsView)")
-        b.append(f"        ensures en_row({ins}, {KIND[m]}, o, en_model({W(w)}, o))")
-        b.append("    {")
-        b.append(f"        en_distinct(); lemma_en_word_{k}(); reveal(en_status);")
-        b.append("    }")
-    for i, b in enumerate(mods):
-        o.append(f"pub mod en_rows_{i} {{")
-        o.append("    use vstd::prelude::*; use super::*;")
-        o += b
-        o.append("}")
-    emit_words(c, allwords, inner, arms)
-    open(os.path.join(T, "en_rows.inc"), "w", encoding="utf-8").write("\n".join(o) + "\n")
-    def expect(ins, m):
-        import re as _re
-        mm = _re.match(r"EnI::(\w+)(?:\((.*)\))?", ins)
-        kind, args = mm.group(1), [int(x.replace("u8", "")) for x in (mm.group(2) or "").split(",") if x.strip()]
-        base = {"Zero": "0", "Hundred": "100", "Thousand": "1000", "Million": "1000000", "Billion": "1000000000"}.get(kind)
-        if base is None:
-            base = "".join(chr(a) for a in args)
-        return base + (m or "")
-    json.dump([{"word": w, "instr": ins, "marker": m, "expect": expect(ins, m)} for w, ins, m in rows], open(os.path.join(T, "en_rows.json"), "w"))
-    print("en:", len(arms), "arms,", len(rows), "rows,", len(allwords), "words")
+        ens = f"en_lemma({W(w)}) == {W(l)}, en_ord_form({W(w)}, {W(l)}) == {'true' if ordf else 'false'}, en_marker_kind({W(w)}) == {kind}"
+        asserts = [f"assert(en_lemma({W(w)}) =~= {W(l)}) by(compute_only);",
+                   f"assert(en_ord_form({W(w)}, {W(l)}) == {'true' if ordf else 'false'}) by(compute_only);",
+                   f"assert(en_marker_kind({W(w)}) == {kind}) by(compute_only);"]
+        return ens, asserts, l
 
+    def row_stmt(r):
+        return f"en_row({r['instr']}, {KIND[r['marker']]}, o, en_model({W(r['word'])}, o))"
+    extra = ["seconds", "th", "ths", "first", "second", "third", "thirds", "st", "nd", "rd", "rds", "point", "-", ""]
+    allwords = set(w for ws, _, _ in arms for w in ws) | set(r["word"] for r in rows) | set(lemma_of(r["word"]) for r in rows) | set(extra)
+    ARMS_CURRENT[:] = arms
+    inner = emit_rows(c, rows, word_facts, row_stmt)
+    emit_words(c, allwords, inner, arms)
+    json.dump(rows, open(os.path.join(T, f"{c}_rows.json"), "w", encoding="utf-8"), ensure_ascii=False)
+    print(c + ":", len(arms), "arms,", len(rows), "rows,", len(allwords), "words")
+
+
+# ------------------------------------------------------------------ Spanish
+def spanish():
+    c = "es"
+    arms = load_arms(c)
+    emit_model(c, arms, "arm-level model of Spanish::apply: the match on the lemma (layer L3a)")
+    rows = []
+
+    def add(w, digits, kind):
+        # kind: "c" cardinal, "o" ordinal masc sing, "a" fem sing, "os"/"as" plural ordinals, "f" fraction (-avo), "ap" apocopated ordinal
+        mk = {"c": None, "o": "º", "a": "ª", "os": "ᵒˢ", "as": "ᵃˢ", "ap": ".ᵉʳ", "f": None}[kind]
+        expect = ("1/" + digits) if kind == "f" else digits + (mk or "")
+        rows.append({"word": w, "digits": digits, "kind": kind, "marker": mk, "expect": expect,
+                     "desc": f"put {digits}" + (f", marker `{mk}`" if mk else "") + (" (fraction)" if kind == "f" else "")})
+    card = {"cero": "0", "un": "1", "uno": "1", "una": "1", "dos": "2", "tres": "3", "cuatro": "4", "cinco": "5", "seis": "6", "siete": "7", "ocho": "8",
+            "nueve": "9", "diez": "10", "once": "11", "doce": "12", "trece": "13", "catorce": "14", "quince": "15", "dieciséis": "16", "dieciseis": "16",
+            "diecisiete": "17", "dieciocho": "18", "diecinueve": "19", "veinte": "20", "veintiuno": "21", "veintiuna": "21", "veintidós": "22", "veintitrés": "23",
+            "veinticuatro": "24", "veinticinco": "25", "veintiséis": "26", "veintisiete": "27", "veintiocho": "28", "veintinueve": "29", "treinta": "30",
+            "cuarenta": "40", "cincuenta": "50", "sesenta": "60", "setenta": "70", "ochenta": "80", "noventa": "90", "cien": "100", "ciento": "100",
+            "doscientos": "200", "doscientas": "200", "trescientos": "300", "trescientas": "300", "cuatrocientos": "400", "cuatrocientas": "400",
+            "quinientos": "500", "quinientas": "500", "seiscientos": "600", "seiscientas": "600", "setecientos": "700", "setecientas": "700",
+            "ochocientos": "800", "ochocientas": "800", "novecientos": "900", "novecientas": "900"}
+    for w, d in card.items():
+        add(w, d, "c")
+    ords = {"primero": "1", "segundo": "2", "tercero": "3", "cuarto": "4", "quinto": "5", "sexto": "6", "séptimo": "7", "octavo": "8", "noveno": "9",
+            "décimo": "10", "undécimo": "11", "duodécimo": "12", "decimotercero": "13", "decimocuarto": "14", "decimoquinto": "15", "decimosexto": "16",
+            "decimoséptimo": "17", "decimoctavo": "18", "decimonoveno": "19", "vigésimo": "20", "trigésimo": "30", "cuadragésimo": "40",
+            "quincuagésimo": "50", "sexagésimo": "60", "septuagésimo": "70", "octogésimo": "80", "nonagésimo": "90", "centésimo": "100",
+            "ducentésimo": "200", "tricentésimo": "300", "cuadringentésimo": "400", "quingentésimo": "500", "sexcentésimo": "600",
+            "septingentésimo": "700", "octingentésimo": "800", "noningentésimo": "900"}
+    for w, d in ords.items():
+        add(w, d, "o")
+        add(w[:-1] + "a", d, "a")
+        add(w + "s", d, "os")
+        add(w[:-1] + "as", d, "as")
+    add("primer", "1", "ap")
+    add("tercer", "3", "ap")
+    fr = {"onceavo": "11", "doceavo": "12", "treceavo": "13", "catorceavo": "14", "quinceavo": "15", "veinteavo": "20", "treintavo": "30", "centavo": "100"}
+    for w, d in fr.items():
+        add(w, d, "f")
+
+    # python mirror of the string-level functions (used only to state what the closed computations must return)
+    def lemma_of(w):
+        if (w.endswith("os") and w != "dos") or w.endswith("as"):
+            return w.rstrip("s")
+        if w.endswith("es") and w != "tres":
+            x = w
+            while x.endswith("es"):
+                x = x[:-2]
+            return x
+        return w
+
+    def marker_kind(w):
+        sing = lemma_of(w)
+        while sing.startswith("decimo"):
+            sing = sing[len("decimo"):]
+        plur = w.endswith("s")
+        if sing in ("primer", "tercer"):
+            return 1
+        if sing in ("primero", "segundo", "tercero", "cuarto", "quinto", "sexto", "séptimo", "octavo", "ctavo", "noveno"):
+            return 3 if plur else 2
+        if sing in ("primera", "segunda", "tercera", "cuarta", "quinta", "sexta", "séptima", "octava", "ctava", "novena"):
+            return 5 if plur else 4
+        if sing.endswith("imo"):
+            return 3 if plur else 2
+        if sing.endswith("ima"):
+            return 5 if plur else 4
+        if sing.endswith("avo"):
+            return 6
+        return 0
+    WANT = {None: 0, ".ᵉʳ": 1, "º": 2, "ᵒˢ": 3, "ª": 4, "ᵃˢ": 5}
+
+    def word_facts(r):
+        w = r["word"]
+        l = lemma_of(w)
+        k = marker_kind(w)
+        ens = f"es_lemma({W(w)}) == {W(l)}, es_marker_kind({W(w)}) == {k}"
+        asserts = [f"assert(es_lemma({W(w)}) =~= {W(l)}) by(compute_only);", f"assert(es_marker_kind({W(w)}) == {k}) by(compute_only);"]
+        return ens, asserts, l
+
+    def row_stmt(r):
+        want = 6 if r["kind"] == "f" else WANT[r["marker"]]
+        unit_guarded = r["kind"] == "c" and len(r["digits"]) == 1 and r["digits"] != "0"
+        needs_ord = lemma_of(r["word"]) == "segundo"   # "segundo" is also the time unit: only read as 2 inside an ordinal
+        return f"es_row({digs(r['digits'])}, {want}, {'true' if unit_guarded else 'false'}, {'true' if needs_ord else 'false'}, o, es_model({W(r['word'])}, o))"
+    extra = ["decimo", "imo", "ima", "avo", "os", "as", "es", "dos", "tres", "primer", "primero", "segundo", "tercero", "cuarto", "quinto", "sexto", "séptimo",
+             "octavo", "ctavo", "noveno", "tercer", "primera", "segunda", "tercera", "cuarta", "quinta", "sexta", "séptima", "octava", "ctava", "novena", "coma", ""]
+    allwords = set(w for ws, _, _ in arms for w in ws) | set(r["word"] for r in rows) | set(lemma_of(r["word"]) for r in rows) | set(extra)
+    ARMS_CURRENT[:] = arms
+    inner = emit_rows(c, rows, word_facts, row_stmt)
+    emit_words(c, allwords, inner, arms)
+    for r in rows:
+        if lemma_of(r["word"]) == "segundo":
+            r["expect"] = None   # not a number on its own (time unit "segundo")
+    json.dump(rows, open(os.path.join(T, f"{c}_rows.json"), "w", encoding="utf-8"), ensure_ascii=False)
+    print(c + ":", len(arms), "arms,", len(rows), "rows,", len(allwords), "words")
+
+
+LANGS = {"en": english, "es": spanish}
 
 if __name__ == "__main__":
     emit_wcode()
-    english()
+    for k, f in LANGS.items():
+        if len(sys.argv) == 1 or k in sys.argv[1:]:
+            f()
